@@ -516,6 +516,11 @@ class Evaluator(object):
                     if f.attr in ('keys', 'values', 'items'):
                         r = list(r)
                     return r
+            if isinstance(recv, dict) and f.attr == 'popitem' and not args:
+                try:
+                    return recv.popitem()
+                except KeyError as e:
+                    raise PyRaise('popitem failed: %r' % (e,), 'KeyError', e)
             if isinstance(recv, dict) and f.attr == 'setdefault' and 1 <= len(args) <= 2:
                 return recv.setdefault(self._hashable(args[0]), *args[1:])
             if isinstance(recv, (list, dict)) and f.attr == 'pop' or (isinstance(recv, set) and f.attr == 'pop' and len(recv) == 1):
